@@ -85,11 +85,6 @@ Proof. unfold c_dcur. rewrite c_all_push, frl_app, frl_one. lia. Qed.
 Lemma c_first_push c x : c_first (c_push c x) = c_first c.
 Proof. reflexivity. Qed.
 
-Lemma lim_ext (a b : lim) :
-  l_file a = l_file b -> l_indexs a = l_indexs b -> l_start a = l_start b -> l_icur a = l_icur b ->
-  l_flen a = l_flen b -> l_dcur a = l_dcur b -> l_cnt a = l_cnt b -> l_lterm a = l_lterm b ->
-  l_cic a = l_cic b -> l_seek a = l_seek b -> l_dpos a = l_dpos b -> l_split a = l_split b -> a = b.
-Proof. destruct a, b. cbn. intros. subst. reflexivity. Qed.
 
 Lemma indexed_app i a b : indexed i (a ++ b) <-> indexed i a /\ indexed (i + nlen a) b.
 Proof.
